@@ -56,7 +56,8 @@ def decodeUnits : List Nat → List Nat
     else u :: decodeUnits rest
 termination_by l => l.length
 
-def readEnt (b : ByteArray) (off slot : Nat) : Ent :=
+/-- `v3`: in a version 3 file the most significant 32 bits of the size field are ignored (2.6.3) -/
+def readEnt (v3 : Bool) (b : ByteArray) (off slot : Nat) : Ent :=
   let allUnits := (List.range 32).map (fun i => le b (off + 2 * i) 2)
   let units := allUnits.takeWhile (· ≠ 0)
   let zeroRange (a n : Nat) : Bool := (List.range n).all (fun i => b.get! (off + a + i) == 0)
@@ -64,7 +65,7 @@ def readEnt (b : ByteArray) (off slot : Nat) : Ent :=
     color := (b.get! (off + 67)).toNat, left := le b (off + 68) 4, right := le b (off + 72) 4,
     child := le b (off + 76) 4, clsidZero := zeroRange 80 16, bits := le b (off + 96) 4,
     ctime := le b (off + 100) 8, mtime := le b (off + 108) 8, start := le b (off + 116) 4,
-    len := le b (off + 120) 8, rawZeroExceptLinks := zeroRange 0 68 && zeroRange 80 48 }
+    len := (if v3 then le b (off + 120) 8 % 4294967296 else le b (off + 120) 8), rawZeroExceptLinks := zeroRange 0 68 && zeroRange 80 48 }
 
 /-- follow a chain in `tab`; `none` on a bad pointer or a cycle -/
 def walk (tab : Array Nat) (start : Nat) : Option (List Nat) :=
@@ -191,7 +192,7 @@ def check (upper : Nat → Nat) (b : ByteArray) : List String := Id.run do
   if version = 3 ∧ numDirH ≠ 0 then bad := s!"C version 3 header has directory sector count {numDirH}" :: bad
   let per := S / 128
   let ents : Array Ent := ((dirChain.zipIdx).flatMap (fun (s, k) =>
-    (List.range per).map (fun j => readEnt b (secOff s + 128 * j) (k * per + j)))).toArray
+    (List.range per).map (fun j => readEnt (version == 3) b (secOff s + 128 * j) (k * per + j)))).toArray
   -- MiniFAT
   let mfChain ← match walk fat firstMf with
     | some c => pure c
